@@ -43,6 +43,9 @@ type Prop struct {
 	// RaceCompanion names the race-mode property a normal check also runs.
 	RaceMode      bool
 	RaceCompanion string
+	// Companions are further properties (same binary) that the check of this
+	// property also runs: other harnesses for clauses of the same statement.
+	Companions []string
 	// BudgetIsViolation: a run ending on a step/simtime budget is a wedge.
 	BudgetIsViolation bool
 	// Runs per tier.
